@@ -106,6 +106,8 @@ CELL_VIEWS = [
     ("select([1,3])", lambda m: m.select(nodes=[1, 3]), "node", [1, 3], "row"),
     ("comp('all')", lambda m: m.comp("all"), "node", [0, 1, 2, 3, 4, 5], "comp"),
     ("g.branch(1)", lambda m: m.g.branch(1), "node", [3], "branch"),
+    # rows selected in a non-ascending order, then grouped by a child level: sharing groups are not contiguous in the selection
+    ("select([0,4,1,5]).branch('all')", lambda m: m.select(nodes=[0, 4, 1, 5]).branch("all"), "node", [0, 1, 4, 5], "branch"),
 ]
 CELL_KEYS = ["radius", "length", "capacitance", "HH_gNa", "v", "HH_m"]
 CELL_BRANCH_OF = [0, 0, 1, 2, 2, 2]
@@ -127,6 +129,8 @@ NET_VIEWS = [
     ("TestSynapse.edge(0)", lambda m: m.TestSynapse.edge(0), "edge", [1], "edge"),
     ("select(edges=[0,2])", lambda m: m.select(edges=[0, 2]), "edge", [0, 2], "row"),
     ("select(edges=[0,1])", lambda m: m.select(edges=[0, 1]), "edge", [0, 1], "row"),
+    ("select(nodes=[5,0,3,1]).cell('all')", lambda m: m.select(nodes=[5, 0, 3, 1]).cell("all"), "node", [0, 1, 3, 5], "cell"),
+    ("select(edges=[2,0])", lambda m: m.select(edges=[2, 0]), "edge", [2, 0], "row"),
 ]
 NET_KEYS = ["radius", "HH_gK", "v", "IonotropicSynapse_gS", "TestSynapse_gC", "IonotropicSynapse_s"]
 NET_BRANCH_OF = [0, 0, 1, 2, 2, 3, 4]
@@ -423,7 +427,7 @@ def _singles(modname):
     return [(vi, k) for vi in range(len(views)) for k in keys if ref_groups(modname, vi, k) is not None]
 
 
-QUICK_PAIR_VIEWS = {"cell": [0, 2, 3, 5, 7, 9], "net": [0, 1, 4, 6, 7, 10]}
+QUICK_PAIR_VIEWS = {"cell": [0, 2, 3, 5, 7, 9, 12], "net": [0, 1, 4, 6, 7, 10, 12, 13]}
 
 
 def explore(ctx):
